@@ -8,6 +8,7 @@ from .. import mir, peg, rx, kw, codegen, emit, args as A
 from ..anchors import Anchors
 from ..facts import src, psrc, find_all, norm_ty
 from . import c05, c13, c14
+from .. import bounds as BN
 
 # resolved callee paths that can panic (std API); arithmetic operator traits are handled separately
 PANIC_API = re.compile(
@@ -781,7 +782,7 @@ class Discharger:
                 continue
             if not (f.params and f.params[0][1] == "char" and len(f.params) == 1):
                 return None, "unbounded text in %s and %s is not a function of one character" % (f2.key, f.key)
-            xs = [P.Opq("c%d" % i) for i in range(3)]
+            xs = [P.Opq("c%d" % i) for i in range(BN.N)]
             ctx.text = xs[0] if leaf.get("one") else list(xs)
             ctx.probe.opaque_calls = {f.key}
             try:
@@ -1168,7 +1169,7 @@ class Discharger:
             return None
         bad, cnt = None, 0
         try:
-            for ln in (1, 2, 3):
+            for ln in range(1, BN.N + 1):
                 for tup in itertools.product(sorted(n["cs"][1]), repeat=ln):
                     pr = P.Probe(self.f, norm_ty(f.impl["self_ty"]) if f.impl is not None else None, f.module)
                     pr.cur.append(f)
@@ -1181,7 +1182,7 @@ class Discharger:
                     break
         except (P.NoEval, P.Panic) as ex:
             return None
-        return n["min"] >= 1 and bad is None, "nonempty", "`%s` is parsed by %s{%d,}: `%s` evaluated on each of the %d texts of one to three of these characters yields Some%s" % (arg, peg.cs_show(n["cs"]), n["min"], src(recv)[:60], cnt, "" if bad is None else " — EXCEPT on %r" % bad)
+        return n["min"] >= 1 and bad is None, "nonempty", "`%s` is parsed by %s{%d,}: `%s` evaluated on each of the %d texts of up to " + str(BN.N) + " of these characters yields Some%s" % (arg, peg.cs_show(n["cs"]), n["min"], src(recv)[:60], cnt, "" if bad is None else " — EXCEPT on %r" % bad)
 
     def nonempty_symbolic(self, f, recv):
         fb = self.b.fn_ir(f.key)
@@ -1201,7 +1202,7 @@ class Discharger:
 
                 try:
                     oks = []
-                    for n_ in (1, 2, 3):
+                    for n_ in range(1, BN.N + 1):
                         pr = P.Probe(self.f, None, h.module)
                         pr.opaque_calls = {g_.key for g_ in self.f.fns.values() if not g_.test and [t_ for nn_, t_ in g_.params if nn_ != "self"] == ["char"]}
                         r_ = pr.invoke(h, None, [[P.Opq("c%d" % i_) for i_ in range(n_)]])
@@ -1221,7 +1222,7 @@ class Discharger:
             if h is not None:
                 try:
                     oks = []
-                    for n_ in (1, 2, 3):
+                    for n_ in range(1, BN.N + 1):
                         pr = P.Probe(self.f, None, h.module)
                         pr.opaque_calls = {g_.key for g_ in self.f.fns.values() if not g_.test and [t_ for nn_, t_ in g_.params if nn_ != "self"] == ["char"]}
                         r_ = pr.invoke(h, None, [[P.Opq("c%d" % i_) for i_ in range(n_)]])
